@@ -72,4 +72,37 @@ mod verif_replay_namematch {
         assert!(tr(&[], true).nameMatch("anything.at.all"));
         assert!(!tr(&[], false).nameMatch("x"));
     }
+
+    /// C19 (bounded): equivalent spellings of a descriptor ('e', 'e.', 'e.*', 'e.*.', 'e.*.*') give the same stored
+    /// descriptor and hence the same matches; '*' sets the wildcard flag
+    #[test]
+    fn verif_replay_namematch_normalised_spellings() {
+        for spelling in ["e", "e.", "e.*", "e.*.", "e.*.*", "  e.*  "] {
+            let doc = format!(
+                r###"<scxml xmlns="http://www.w3.org/2005/07/scxml" initial="s0" version="1.0" datamodel="null">
+ <state id="s0"><transition event="{} other.x.*" target="s1"/><transition event="*" target="s1"/></state>
+ <final id="s1"/>
+</scxml>"###,
+                spelling
+            );
+            let fsm = crate::scxml_reader::parse_from_xml(doc).unwrap();
+            let mut seen = 0;
+            for t in fsm.transitions.values() {
+                if t.wildcard {
+                    assert!(t.nameMatch("anything"));
+                    seen += 1;
+                } else if !t.events.is_empty() {
+                    assert_eq!(t.events, vec!["e".to_string(), "other.x".to_string()], "spelling {:?}", spelling);
+                    for n in ["e", "e.sub", "e.sub.sub", "other.x", "other.x.y"] {
+                        assert!(t.nameMatch(n), "spelling {:?} must match {:?}", spelling, n);
+                    }
+                    for n in ["ex", "e2.sub", "other", "other.xy", "E"] {
+                        assert!(!t.nameMatch(n), "spelling {:?} must not match {:?}", spelling, n);
+                    }
+                    seen += 1;
+                }
+            }
+            assert_eq!(seen, 2);
+        }
+    }
 }
